@@ -485,6 +485,8 @@ func c01Directed(run *ev.Run, st *cmpStats) {
 			{Src: abs(noPerm), Dst: "/opt/d/no-permission-bits.dat", Exp: []gen.Expect{{Dst: "/opt/d/no-permission-bits.dat", Kind: "file", Src: abs(noPerm), Node: noPerm}}},
 			file("/opt/d/ordinary.txt"),
 		}},
+		// forty directories deep: every ancestor is an implied directory of the payload
+		{"deep-destination", []*gen.Content{file("/" + strings.Repeat("n/node_modules/", 20) + "leaf.txt")}},
 		// an overlay of the root file system: the tree lands at "/"
 		// (rpm only: the tar based formats ship the tree's own root as a member
 		// named "./" or "" there, observation O4 - no expectation is held against it)
@@ -498,6 +500,35 @@ func c01Directed(run *ev.Run, st *cmpStats) {
 			{Src: filepath.Join(root, "linkdir") + "/*.conf", Dst: "/opt/d/globbed", Exp: []gen.Expect{{Dst: "/opt/d/globbed/inner.conf", Kind: "file", Src: filepath.Join(root, "linkdir", "inner.conf"), Node: inner}}},
 			{Type: "license", Src: linkDoc, Dst: "/usr/share/doc/d/LICENSE", Exp: []gen.Expect{{Dst: "/usr/share/doc/d/LICENSE", Kind: "file", Src: abs(realDoc), Node: realDoc}}},
 		}},
+	}
+	// no configured mtime, SOURCE_DATE_EPOCH beyond 2^31 (after 2038): it is the
+	// package-wide default mtime, so regular files carry it
+	{
+		prev, had := os.LookupEnv("SOURCE_DATE_EPOCH")
+		_ = os.Setenv("SOURCE_DATE_EPOCH", "4000000000")
+		s := &gen.Spec{Name: "directed", Arch: "amd64", Version: "1.0.0", Maintainer: "D <d@example.com>", Description: "d"}
+		s.RPM.BuildHost = "verif-host"
+		s.Contents = []*gen.Content{file("/opt/sde/extra.txt"), tree("/opt/sde/t")}
+		for _, f := range formats {
+			run.Case("directed|source-date-epoch-after-2038-is-the-default-mtime|"+f, true)
+			res := buildYAML(s.YAML(), f)
+			if res.Err != nil || res.Panic != "" {
+				run.Violate("C01/"+f+"/build-error/directed", map[string]any{"case": "SOURCE_DATE_EPOCH=4000000000", "error": fmt.Sprint(res.Err, ev.Short(res.Panic, 300))})
+				continue
+			}
+			pkg := dec.Decode(f, res.Bytes, false)
+			for _, e := range pkg.Entries {
+				if e.Kind == "file" && strings.HasPrefix(e.Path, "/opt/sde/") && e.MTime != 4000000000 {
+					run.Violate("C01/"+f+"/file-mtime/source-date-epoch-default", map[string]any{"path": e.Path, "got": e.MTime, "want": int64(4000000000)})
+					break
+				}
+			}
+		}
+		if had {
+			_ = os.Setenv("SOURCE_DATE_EPOCH", prev)
+		} else {
+			_ = os.Unsetenv("SOURCE_DATE_EPOCH")
+		}
 	}
 	for ci, dc := range cases {
 		for _, umask := range []int64{0, 0o027} {
